@@ -62,6 +62,12 @@ def run_worker(job, wd, name, seed, cwd_kind, cwd_path=None):
                 files[f.name] = junk
                 files[str(rel)] = junk
                 files[str(Path("data") / rel)] = junk
+        # ... and entries named like the calculation's own input files (taken relative to the SETTINGS file, not to the working
+        # directory), holding another data set
+        other = Path(job["datasets"]["B"]).parent
+        for f in sorted(other.iterdir()):
+            if f.is_file():
+                files[f.name] = f.read_text()
         for name, content in files.items():
             (cw / name).parent.mkdir(parents=True, exist_ok=True)
             (cw / name).write_text(content)
